@@ -70,6 +70,16 @@ theorem C14_let_destructuring (env : EnumEnv) (p : Pat) (ty : Ty) (v : Val) (stk
     | some st => some (st.locals, st.stack)) = _
   rw [h]; simp
 
+/-- **Destructuring accepted by the checker binds like the matching arm would**: for an or-free
+    pattern that `checkLet` (C12) accepts, `let p = v` / `for p in …` stores, for EVERY well-typed
+    value, exactly what a match arm `p` would bind, and restores the stack — the binding code does not
+    compare, and by `C12_let_accepted_irrefutable` it never needs to. -/
+theorem C14_let_accepted_binds (env : EnumEnv) (hinh : Inhabited' env) (p : Pat) (ty : Ty) (fuel : Nat)
+    (ht : patTyped env p ty = true) (hof : orCount p = 0) (hacc : checkLet env fuel ty p = some true)
+    (v : Val) (hv : hasTy env v ty = true) (stk : List SVal) :
+    runLet env ty p v stk = some ((bindingsOf env ty p v).reverse, stk) :=
+  C14_let_destructuring env p ty v stk ht hv hof (C12_let_accepted_irrefutable hinh ht hacc v hv)
+
 /-- **The match as the code is** (every arm list, any or-patterns): the `ExprKind::Match` code enters
     the body of the FIRST PASS, in emission order, whose selected alternative (`passPat`) matches the
     value — and of no other pass —, binds exactly the variables of that alternative to their
